@@ -172,7 +172,7 @@ theorem runQuery_nodup (s : St) (r : RQ) (h : (s.running.map Prod.fst).Nodup) :
   · exact h
   · exact nodup_keys_put _ _ _ h
 
-/-- an object whose channel has room for two messages is admitted without blocking -/
+/-- an object whose channel has room for two messages enters the running table without blocking -/
 theorem runQuery_blocked (s : St) (r : RQ) (hb : s.blocked = false) (hr : r.chanLen + 2 ≤ chanCap) :
     (runQuery s r).blocked = false := by
   rw [runQuery_eq]; split
